@@ -206,14 +206,64 @@ def parse_vspec(path):
 
 def find_subseq(toks, lo, hi, anchor_text):
     """all (first_tok, last_tok) where the significant tokens of toks[lo:hi] match anchor"""
-    a = [t.text for t in tokenize(anchor_text) if t.kind not in ("ws", "comment")]
+    return [(a, b) for a, b, _ in find_subseq_w(toks, lo, hi, anchor_text)]
+
+
+def find_subseq_w(toks, lo, hi, anchor_text):
+    """like find_subseq, with wildcards: `$1`, `$2`… in the anchor match a non-empty bracket-balanced token run (an
+    argument expression) up to the next anchor token; returns (first_tok, last_tok, {n: (first, last)})"""
+    atxt = re.sub(r"\$(\d+)", r" __VXW_\1__ ", anchor_text)
+    a = [t.text for t in tokenize(atxt) if t.kind not in ("ws", "comment")]
     idx = [k for k in range(lo, hi) if toks[k].kind not in ("ws", "comment")]
     out = []
     n = len(a)
-    for i in range(len(idx) - n + 1):
-        if all(toks[idx[i + j]].text == a[j] for j in range(n)):
-            out.append((idx[i], idx[i + n - 1]))
+    OPENB, CLOSEB = ("(", "[", "{"), (")", "]", "}")
+    for i in range(len(idx)):
+        j = 0
+        p = i
+        caps = {}
+        ok = True
+        while j < n:
+            if p >= len(idx):
+                ok = False; break
+            m = re.fullmatch(r"__VXW_(\d+)__", a[j])
+            if m:
+                if j + 1 >= n:
+                    ok = False; break
+                nxt = a[j + 1]
+                depth = 0
+                q = p
+                found = False
+                while q < len(idx):
+                    tx = toks[idx[q]].text
+                    if depth == 0 and tx == nxt and q > p:
+                        found = True; break
+                    if tx in OPENB: depth += 1
+                    elif tx in CLOSEB:
+                        depth -= 1
+                        if depth < 0: break
+                    elif depth == 0 and tx in (";",):
+                        break
+                    q += 1
+                if not found:
+                    ok = False; break
+                caps[int(m.group(1))] = (idx[p], idx[q - 1])
+                p = q
+                j += 1
+                continue
+            if toks[idx[p]].text != a[j]:
+                ok = False; break
+            p += 1
+            j += 1
+        if ok and n > 0:
+            out.append((idx[i], idx[p - 1], caps))
     return out
+
+
+def subst_caps(new, caps, toks, src):
+    for k, (a, b) in caps.items():
+        new = new.replace(f"${k}", src[toks[a].pos:toks[b].end])
+    return new
 
 
 def closure_key(toks, c, src):
@@ -814,11 +864,11 @@ def process_fn(toks, it, fs: FnSpec, qual, ed: Edits, log, unit_in_trait_impl):
             ed.insert(toks[l.body_open].pos, "\n" + "\n".join(raw) + "\n", prio=1)
     # rewrites inside the function
     for rule, old, new in fs.rewrites:
-        occ = find_subseq(toks, it.kw, it.last + 1, old)
+        occ = find_subseq_w(toks, it.kw, it.last + 1, old)
         if not occ:
             raise LostAnchor(f"{qual}: rewrite {rule} anchor {old!r} not found")
-        for a, b in occ:
-            ed.replace(toks[a].pos, toks[b].end, new)
+        for a, b, caps in occ:
+            ed.replace(toks[a].pos, toks[b].end, subst_caps(new, caps, toks, src))
         log["rewrites"].append({"rule": rule, "fn": qual, "before": old, "after": new, "count": len(occ)})
     # hints
     for where, anchor, nth, raw in fs.hints:
@@ -939,11 +989,11 @@ def twin_text(gen_fn_text, name, twin_name, fs: FnSpec, raw):
 
 def apply_text_rewrites(toks, lo, hi, rewrites, ed, log, where):
     for rule, old, new in rewrites:
-        occ = find_subseq(toks, lo, hi, old)
+        occ = find_subseq_w(toks, lo, hi, old)
         if not occ:
             raise LostAnchor(f"{where}: rewrite {rule} anchor {old!r} not found")
-        for a, b in occ:
-            ed.replace(toks[a].pos, toks[b].end, new)
+        for a, b, caps in occ:
+            ed.replace(toks[a].pos, toks[b].end, subst_caps(new, caps, toks, ed.src))
         log["rewrites"].append({"rule": rule, "fn": where, "before": old, "after": new, "count": len(occ)})
 
 
@@ -958,7 +1008,16 @@ def gen_file(ws, fsx: FileSpec, log):
     twins_pending = []   # (insert_after_item, fn_item, fnspec, qual)
     wrapped_fns = []
     for isp in fsx.items:
-        cands = [i for i in items if i.header == isp.header]
+        hdr_, nth_ = isp.header, None
+        mm = re.match(r"(.*?)\s*#\s*(\d+)$", hdr_)
+        if mm:
+            hdr_, nth_ = mm.group(1).strip(), int(mm.group(2))     # `item impl Message #2`: the n-th item with this header
+        cands = [i for i in items if i.header == hdr_]
+        if nth_ is not None:
+            if len(cands) < nth_:
+                raise LostAnchor(f"{fsx.path}: item `{hdr_}` #{nth_} not found ({len(cands)} candidates)")
+            cands = [cands[nth_ - 1]]
+            isp.header = hdr_
         if len(cands) != 1:
             raise LostAnchor(f"{fsx.path}: item `{isp.header}` found {len(cands)} times")
         it = cands[0]
